@@ -401,6 +401,19 @@ def corr(ctx, suite, n, extra_args=(), driver_suite=None, timeout=3000):
                  replay={"suite": suite, "seed": ctx.seed})
         return None
     if rc != 0:
+        if "panic:" in se or "fatal error:" in se:
+            # The application crashed the harness process: a panic outside any recoverable frame (e.g. in the goroutine of
+            # baseapp's optimistic execution, which ProcessProposal starts) kills a node the same way.  The output is flushed
+            # line by line, so the operations since the last `> reset` are the failing history.
+            lines = so.splitlines()
+            j = len(lines) - 1
+            while j > 0 and not lines[j].startswith("> reset"):
+                j -= 1
+            k = se.find("panic:") if "panic:" in se else se.find("fatal error:")
+            ctx.fail("oracle", "no_crash: the application crashed the process in suite " + suite, se[k:k + 1200], check="no_crash",
+                     replay={"suite": suite, "seed": ctx.seed, "check": "no_crash", "panic": se[k:k + 3000],
+                             "history": [x for x in lines[j:] if x.startswith("> ")][-80:]})
+            return None
         ctx.fail("infra", "svh " + suite, (so[-1500:] + se[-1500:]))
         return None
     lines = so.splitlines()
